@@ -295,7 +295,7 @@ fn check() {
     let dg = datagram_channel_sessions(&chk);
 
     let ex = stats.executions.load(Ordering::Relaxed);
-    if ex < 300 || stats.distinct.len() < 8 {
+    if chk.violation_count() == 0 && (ex < 300 || stats.distinct.len() < 8) {
         machinery(format!("vacuous: executions={ex} distinct={}", stats.distinct.len()));
     }
     let coverage = json!({
